@@ -156,6 +156,12 @@ def gen_flatten(rng):
         cond = ["and", atom_e, gen_atom(rng, names, False, ctx)]
     else:
         cond = None
+    if len(names) == 2 and rng.random() < 0.25:
+        # the flattened element is free in a quantified condition over the other variable (nothing binds it before)
+        z = names[1]
+        cond = [rng.choice(["forall", "forall", "exists"]), z, ["cmp", rng.choice(CMP), eterm, ["attr", ["var", z], rng.choice("ab")]]]
+        sel = [["var", "e"]] if rng.random() < 0.5 else [["var", x]]
+        return {"world": world, "vars": vars_, "derived": derived, "cond": cond, "select": sel, "mode": "entity" if rng.random() < 0.5 else "set_of"}
     if cond is not None and rng.random() < 0.2:
         # a disjunction over the same variable whose one side yields no row at all for an x with an empty collection
         atom_x = ["cmp", rng.choice(CMP), ["attr", ["var", x], rng.choice("ab")], ["lit", rng.randint(0, 2)]]
